@@ -44,9 +44,19 @@ UsedL(I, alive) == {I.cvl[c] : c \in alive} \ {NoRef}
 FreshD(I, alive) == CHOOSE r \in Refs \ UsedD(I, alive) : \A q \in Refs \ UsedD(I, alive) : r <= q
 FreshL(I, alive) == CHOOSE r \in Refs \ UsedL(I, alive) : \A q \in Refs \ UsedL(I, alive) : r <= q
 
-\* garbage collection (canonical form: unreachable payloads are reset), keeps the state space small
-GC(I, alive) == [I EXCEPT !.hd = [r \in Refs |-> IF r \in UsedD(I, alive) THEN I.hd[r] ELSE EmptyD],
-                          !.hl = [r \in Refs |-> IF r \in UsedL(I, alive) THEN I.hl[r] ELSE <<>>]]
+\* garbage collection + canonical numbering: unreachable payloads are reset and the reachable
+\* ones renumbered in the order of the least context that points to them (reference identifiers
+\* are opaque, so this is a symmetry reduction of the model, it keeps the state space small)
+MinUser(cv, alive, r) == CHOOSE c \in alive : cv[c] = r /\ \A d \in alive : cv[d] = r => c <= d
+Rank(cv, alive, used, r) == 1 + Cardinality({q \in used : MinUser(cv, alive, q) < MinUser(cv, alive, r)})
+Renumber(heap, cv, alive, used, empty) ==
+  [hp |-> [r \in Refs |-> IF \E q \in used : Rank(cv, alive, used, q) = r
+                          THEN heap[CHOOSE q \in used : Rank(cv, alive, used, q) = r] ELSE empty],
+   cv |-> [c \in Ctxs |-> IF c \in alive /\ cv[c] # NoRef THEN Rank(cv, alive, used, cv[c]) ELSE NoRef]]
+GC(I, alive) ==
+  LET d == Renumber(I.hd, I.cvd, alive, UsedD(I, alive), EmptyD)
+      l == Renumber(I.hl, I.cvl, alive, UsedL(I, alive), <<>>)
+  IN [I EXCEPT !.hd = d.hp, !.cvd = d.cv, !.hl = l.hp, !.cvl = l.cv]
 
 \* storage.set(new dict object) in context c   /   mutate the dict object c's ContextVar points to
 SetDictFresh(I, alive, c, d) == LET r == FreshD(I, alive) IN [I EXCEPT !.hd[r] = d, !.cvd[c] = r]
@@ -117,7 +127,7 @@ Next == /\ (MaxOps < 0 \/ n < MaxOps)
              /\ st' = NextOf(st, o)
              /\ im' = GC(INext(im, st.alive, o), st'.alive)
              /\ bad' = (bad \/ IRet(im, o) # RetOf(st, o))
-        /\ n' = n + 1
+        /\ n' = IF MaxOps < 0 THEN n ELSE n + 1    \* unbounded configs: n stays 0 (finite state space)
 
 Spec == Init /\ [][Next]_vars
 
